@@ -14,6 +14,7 @@ PLAN = {
     'C14': ('persistsim', 3000, 80000),
     'C16': ('rngsim', 3000, 80000),
     'C18': ('persistsim', 1500, 40000),
+    'C20': ('permsim', 3000, 80000),
 }
 
 
